@@ -44,10 +44,10 @@ static i128 gm_get(const MPZ *p){
   GM_RANGE(s >= -GM_NL && s <= GM_NL, "operand has at most 2 limbs");
   __CPROVER_assume(s >= -GM_NL && s <= GM_NL);
   uint32_t n = s < 0 ? (uint32_t)-s : (uint32_t)s;
-  u128 m = 0;
-  if (n >= 1) m = p->f2[0];
-  if (n >= 2) m |= (u128)p->f2[1] << 64;
-  __CPROVER_assert(n == 0 || p->f2[n - 1] != 0, "gmp: operand is normalised (most significant limb is not zero)");
+  /* both limbs of the (2-limb) array are read, only the n significant ones are used */
+  uint64_t d0 = p->f2[0], d1 = p->f2[1];
+  u128 m = n == 0 ? (u128)0 : (n == 1 ? (u128)d0 : (((u128)d1 << 64) | d0));
+  __CPROVER_assert(n == 0 || (n == 1 ? d0 : d1) != 0, "gmp: operand is normalised (most significant limb is not zero)");
   GM_RANGE(m < (u128)GM_LIM, "operand magnitude below 2^126");
   __CPROVER_assume(m < (u128)GM_LIM);
   return s < 0 ? -(i128)m : (i128)m;
@@ -115,6 +115,7 @@ i128 GM_tdiv(i128 a, i128 b){
   if (gm_abs(a) < gm_abs(b)) return 0;
   if (a == b) return 1; if (a == -b) return -1;
   i128 r = __CPROVER_uninterpreted_gm_tdiv(a, b);
+  __CPROVER_assume(r > -GM_LIM && r < GM_LIM);
   __CPROVER_assume(r != 0 && ((r > 0) == ((a > 0) == (b > 0))) && gm_abs(r) <= gm_abs(a) / 2);
   return r; }
 i128 GM_trem(i128 a, i128 b){
@@ -122,6 +123,7 @@ i128 GM_trem(i128 a, i128 b){
   if (gm_abs(a) < gm_abs(b)) return a;
   if (a == b || a == -b) return 0;
   i128 r = __CPROVER_uninterpreted_gm_trem(a, b);
+  __CPROVER_assume(r > -GM_LIM && r < GM_LIM);
   __CPROVER_assume(gm_abs(r) < gm_abs(b) && (r == 0 || ((r > 0) == (a > 0))));
   return r; }
 #endif
@@ -249,15 +251,16 @@ i128 GM_cann(i128 n, i128 d){
   if (n == 0) return 0;
   if (d == -1) return -n;
   i128 r = __CPROVER_uninterpreted_gm_cann(n, d);
+  __CPROVER_assume(r > -GM_LIM && r < GM_LIM);
   /* sign of n/d, magnitude not above |n|, not zero */
-  __CPROVER_assume(r != 0 && ((r > 0) == ((n > 0) == (d > 0))) && (r < 0 ? -r : r) <= (n < 0 ? -n : n));
+  __CPROVER_assume(r != 0 && ((r > 0) == ((n > 0) == (d > 0))) && gm_abs(r) <= gm_abs(n));
   return r; }
 i128 GM_cand(i128 n, i128 d){
   if (GM_canon(n, d)) return d;
   if (n == 0) return 1;
   if (d == -1) return 1;
   i128 r = __CPROVER_uninterpreted_gm_cand(n, d);
-  __CPROVER_assume(r > 0 && r <= (d < 0 ? -d : d));
+  __CPROVER_assume(r > 0 && r <= gm_abs(d));
   __CPROVER_assume(GM_coprime(GM_cann(n, d), r));
   return r; }
 /* canonical results of the field operations on canonical operands: op 0 = +, 1 = -, 2 = *, 3 = / */
